@@ -11,6 +11,10 @@ def main(tier, seed):
     ws = [2, 3] if tier == 'quick' else [2, 3, 4]
     items = fam_ops.ops_family(seed, tier, ws)
     items += fam_seq.computed_casts(seed, tier)
+    # operators whose operand is a LITERAL, against the same program with the literal passed in at run time: the source IR
+    # is read off the typechecker's tree, so a literal mistreated by the typechecker (narrowed, folded by a wrong identity)
+    # shows only against its run-time twin
+    items += [it for it in fam_ops.fold_family(ws) if it.key[1] in ('compare_with_out_of_range_literal', 'compare_offset', 'unit_operand_identities', 'zero_operand_identities')]
     return rt.standard(PROP, tier, seed, items,
                        'one program per operator/cast (value, branch, while, negated, !truth_is_defeat in try/undo, '
                        'try/stop and through a defeat function) x operand types x boundary grid pairs; W=2 and one of {3,4} '
